@@ -128,8 +128,8 @@ func Ite(c, a, b *T) *T {
 	return A("ite", c, a, b)
 }
 
-func Sel(a, i *T) *T      { return A("select", a, i) }
-func Sto(a, i, v *T) *T   { return A("store", a, i, v) }
+func Sel(a, i *T) *T    { return A("select", a, i) }
+func Sto(a, i, v *T) *T { return A("store", a, i, v) }
 func Forall(b [][2]string, body *T, pats ...[]*T) *T {
 	if len(b) == 0 {
 		return body
